@@ -320,7 +320,7 @@ def _subsets(devs):
     return out
 
 
-def _shrink(ex, work, events, pool_dev0, pool_all, rounds=12):
+def _shrink(ex, work, events, pool_dev0, pool_all, rounds=8):
     """Smallest sub-history that History.tla (with every listed deviation allowed) still rejects."""
     ops = [dict(name=e["name"], slot=e["slot"], arg=e["arg"], inp=e["inp"]) for e in events]
 
@@ -495,7 +495,7 @@ def run(rep):
                     rep.known_finding(devs[d])
                 continue
             nviol += 1
-            if nviol <= 3:          # shrink and explain the first few; the rest are stored as recorded
+            if nviol <= 2:          # shrink and explain the first few; the rest are stored as recorded
                 small = _shrink(ex, work, tr, pool0, pools.get(tuple(sorted(devs))))
                 _, g1 = validate(work, [small], pool0, tag="one")
                 k = min(g1[1]["reached"], len(small) - 1)
